@@ -56,8 +56,10 @@ FAMILIES_QUICK = [("checks", 28, {}), ("checks", 11, {"minimal": True}), ("depch
 FAMILIES_THOROUGH = [("checks", 420, {}), ("checks", 165, {"minimal": True}), ("depchecks", 45, {}), ("depchecks", 45, {"minimal": True})]
 
 # round-c families (generators in _hist2.py)
-FAMILIES2_QUICK = [("post", 8, {}), ("post", 2, {"minimal": True})]
-GEN2 = {"post": H2.gen_post}
+FAMILIES2_QUICK = [("post", 8, {}), ("post", 2, {"minimal": True}),
+                   # round d (appended, so that the histories of the families above stay what they were)
+                   ("overrun", 3, {}), ("overrun", 1, {"minimal": True}), ("selfcheck", 4, {})]
+GEN2 = {"post": H2.gen_post, "overrun": H2.gen_overrun, "selfcheck": H2.gen_selfcheck}
 
 
 def run(ctx):
@@ -77,7 +79,8 @@ def run(ctx):
                             "condition, add / remove checks, command exits non-zero / exceeds its 300ms timeout / stops writing an output, "
                             "content and command changes; 1-3 checks per target mixing exit-status-only and expected_output checks in every order; outputs "
                             "missing first / middle / last incl. dir:: outputs that were never created; scripted cycle condition destroyed -> failing run -> "
-                            "condition re-established from outside; round-c family post (x10 quick, 2 of them minimal): multi-line expected_output, the checked state gains an "
+                            "condition re-established from outside; round-d families overrun (a command that overruns its 300ms timeout and exits 0 on SIGTERM, run because of an edit / a taint / no-cache) "
+                            "and selfcheck (output checks `test -f <own declared output>`; the output is deleted after it was cached); round-c family post (x10 quick, 2 of them minimal): multi-line expected_output, the checked state gains an "
                             "extra line (from outside or written by the target's own command), a command that overwrites the state its own check tests while it runs for "
                             "another reason (edited, tainted, no-cache) with the checks passing beforehand, a no-cache target nobody depends on that stops creating a "
                             "declared output; non-trivial = distinct history with >=2 builds, one executing and one with a hit")
@@ -138,6 +141,16 @@ def run(ctx):
                     if t.get("beh", 0) != 0 and l in ex:
                         fail("build succeeded although a selected command exited non-zero / exceeded its timeout", h, b,
                              "success-with-failing-command", target=l)
+            # checks that look at the target's own declared output (family selfcheck): in a successful build every selected target
+            # was reached, so a failing pre-check must have forced the execution whatever the cache could have restored
+            if "selfcheck" in h.get("tags", []) and o["ok"]:
+                for l in sel:
+                    t = ws["targets"][l]
+                    if H.rdeps(ws, l) and t.get("checks") and any(not H.check_holds(c, o["pre"]) for c in t["checks"]):
+                        cnt["failing_prechecks"] += 1
+                        if l not in ex:
+                            fail("an output check (it looks at the target's own output) failed before the build but the target was not executed",
+                                 h, b, "failing-check-did-not-force-execution", target=l)
             # failing pre-check forces execution (when the target is reached: all its dependencies' subtrees executed fine is
             # not observable here, so only targets without dependencies are judged)
             for l in sel:
